@@ -17,14 +17,15 @@ namespace Pipe
  * the terminator returns the error, once, and never success;
  * exactly the commands `0 .. k-1` were started -- no later one;
  * every started command that is not detached is waited for exactly once (in order), detached ones never;
- * at every one of these waits the parent holds no pipe end of the attempt, with the single exception
-   of the read end of the shared stderr pipe in `Pipeline::capture` (see `c14_capture_keeps_stderr_reader`);
+ * at every one of these waits the parent holds no pipe end of the attempt -- none at all, for every terminator
+   (`Pipeline::capture` held the read end of its shared stderr pipe there until fix F15; see
+   `c14_capture_old_order_counterexample`);
  * when the terminator has returned, the parent holds no pipe end of the attempt at all. -/
 theorem c14_partial_start_cleans_up (c0 : Cfg) (t : Term) (k : Nat) (hf : c0.failAt = some k) (hk : k < c0.n) :
     (run c0 t).filterMap retVal = [false] ∧
     (run c0 t).filterMap spawnIdx = List.range k ∧
     (run c0 t).filterMap waitIdx = (List.range k).filter (fun j => !(effective c0 t).det j) ∧
-    WaitsUnder (fun h => ∀ e, h e ≠ none → capPipe (effective c0 t) t = true ∧ e = ⟨0, .r⟩) Held.empty (run c0 t) ∧
+    WaitsUnder (fun h => ∀ e, h e = none) Held.empty (run c0 t) ∧
     heldAfter Held.empty (run c0 t) = Held.empty := by
   have hf' : (effective c0 t).failAt = some k := by rw [effective_failAt]; exact hf
   have hk' : k < (effective c0 t).n := by rw [effective_n]; exact hk
@@ -57,16 +58,11 @@ theorem waitsUnder_mono (P Q : Held → Prop) (hPQ : ∀ h, P h → Q h) (h : He
     cases x <;> simp_all [WaitsUnder]
     all_goals first | exact ih _ hw | exact ⟨hPQ _ hw.1, ih _ hw.2⟩
 
-/-- for every terminator that does not create the shared stderr pipe (all of `Exec`'s, and
-    `Pipeline::{popen, join, stream_stdout, stream_stdin}`) the parent holds nothing at the waits -/
-theorem c14_nothing_held_at_waits (c0 : Cfg) (t : Term) (k : Nat) (hf : c0.failAt = some k) (hk : k < c0.n)
-    (hc : capPipe (effective c0 t) t = false) :
-    WaitsUnder (fun h => ∀ e, h e = none) Held.empty (run c0 t) := by
-  refine waitsUnder_mono _ _ ?_ _ _ (c14_partial_start_cleans_up c0 t k hf hk).2.2.2.1
-  intro h hP e
-  cases he : h e with
-  | none => rfl
-  | some b => have := (hP e (by simp [he])).1; simp [hc] at this
+/-- the same, as a statement of its own: whatever the terminator (the ones that create the shared stderr pipe,
+    `Pipeline::capture` and `Pipeline::communicate`, included) the parent holds nothing at the waits -/
+theorem c14_nothing_held_at_waits (c0 : Cfg) (t : Term) (k : Nat) (hf : c0.failAt = some k) (hk : k < c0.n) :
+    WaitsUnder (fun h => ∀ e, h e = none) Held.empty (run c0 t) :=
+  (c14_partial_start_cleans_up c0 t k hf hk).2.2.2.1
 
 /-- `Pipeline::communicate` detaches every command: its cleanup never waits -/
 theorem c14_communicate_never_waits (c0 : Cfg) (k : Nat) (hf : c0.failAt = some k) (hk : k < c0.n) :
@@ -76,20 +72,22 @@ theorem c14_communicate_never_waits (c0 : Cfg) (k : Nat) (hf : c0.failAt = some 
     intro j; simp only [effective]; (repeat' split) <;> rfl
   simp [hd]
 
-/-- the recorded finding (known_findings.json, C14 capture-start-failure-keeps-stderr-reader-while-waiting):
-    in `Pipeline::capture` the full statement fails -- the parent still holds the read end of the
-    shared stderr pipe while it waits for the commands already started -/
-theorem c14_capture_keeps_stderr_reader :
-    ∃ c0 : Cfg, c0.failAt = some 1 ∧ 1 < c0.n ∧
-      ¬ WaitsUnder (fun h => ∀ e, h e = none) Held.empty (run c0 .capture) := by
-  refine ⟨{ n := 2, det := fun _ => false, sin := .inherit, sout := .inherit, serr := .inherit, errTo := false,
-            failAt := some 1 }, rfl, by decide, ?_⟩
+/-- F15 (repaired by a `fix:` commit; until then the known finding
+    `C14 capture-start-failure-keeps-stderr-reader-while-waiting`): `Pipeline::capture` used to wait for the commands
+    already started while `setup_communicate` still held the read end of the shared stderr pipe, and released it only
+    afterwards.  In that order the wait happens with the reader held: -/
+theorem c14_capture_old_order_counterexample :
+    ¬ WaitsUnder (fun h => ∀ e, h e = none) (fun e => if e = ⟨0, .r⟩ then some true else none)
+        ([Act.wait 0] ++ [Act.close ⟨0, .r⟩]) := by
   intro h
-  simp [run, runEff, effective, startAll, capPipe, att2, stageOk, stageFail, mkActs, childEnds, parentEnds, hasInPipe,
-    hasOutPipe, hasErrPipe, att0, att1, dropVec, dropPopen, popenEnds, noneWaited, WaitsUnder, stepHeld, List.range,
-    List.range.loop] at h
-  have := h ⟨0, .r⟩
-  simp at this
+  simp [WaitsUnder] at h
+
+/-- ... and the minimal failing `capture` of the model, `(a | missing).capture()`, now waits with nothing held
+    (a test, labelled as a test; the general statement is `c14_partial_start_cleans_up`) -/
+example : WaitsUnder (fun h => ∀ e, h e = none) Held.empty
+    (run { n := 2, det := fun _ => false, sin := .inherit, sout := .inherit, serr := .inherit, errTo := false,
+           failAt := some 1 } .capture) :=
+  c14_nothing_held_at_waits _ _ 1 rfl (by decide)
 
 /-- **C14 (the cleanup of a failed start waits with nothing held, whatever the started commands own).**
     `Pipeline::popen` releases the pipe ends of *all* commands started so far before any of them is waited for
